@@ -103,9 +103,11 @@ class PumlParser(DiagramParser):
     ) -> set[Module]:
         module_group_1 = "m1"
         module_group_2 = "m2"
+        alias_group_1 = "alias1"
         alias_group = "alias"
 
-        component_followed_by_name_no_brackets = f"{COMPONENT_MARKER}{NON_EMPTY_WHITESPACE}{cls._named_group(module_group_1, NON_EMPTY_CHAR_OR_DIGIT)}"
+        optional_alias_no_brackets = f"({NON_EMPTY_WHITESPACE}{ALIAS_MARKER}{NON_EMPTY_WHITESPACE}{cls._named_group(alias_group_1, NON_EMPTY_STRING)})?"
+        component_followed_by_name_no_brackets = f"{COMPONENT_MARKER}{NON_EMPTY_WHITESPACE}{cls._named_group(module_group_1, NON_EMPTY_CHAR_OR_DIGIT)}{optional_alias_no_brackets}"
 
         optional_component = f"({COMPONENT_MARKER}{NON_EMPTY_WHITESPACE})?"
         component_name_in_brackets = f"{BRACKET_OPEN}{cls._named_group(module_group_2, NON_EMPTY_CHAR_OR_DIGIT_OR_WHITESPACE)}{BRACKET_CLOSE}"
@@ -121,7 +123,7 @@ class PumlParser(DiagramParser):
         result = set()
         for match in re.finditer(pattern, content):
             module = match.group(module_group_1) or match.group(module_group_2)
-            alias = match.group(alias_group)
+            alias = match.group(alias_group_1) or match.group(alias_group)
             result.add(Module(name=module, alias=alias))
 
         return result
